@@ -72,6 +72,7 @@ CaseResult run_static(const RunCtx &ctx, TapeReader &t, unsigned size_hint) {
     o.xkeys = ctx.x("xkeys");
     o.xthreads = ctx.x("xthreads");
     o.xprocs = ctx.x("xprocs");
+    o.far_tail = true;
     std::vector<K> keys = gen_keys<K>(t, o, meta);
     const bool nested = t.chance(1, 10); // construct from inside a caller's OpenMP parallel region
     // a second index of the same instantiation, built later over every other key, is alive during the queries and queried itself
